@@ -18,8 +18,10 @@ import (
 	"net"
 	"os"
 	"os/exec"
+	"strconv"
 	"strings"
 	"sync"
+	"sync/atomic"
 	"syscall"
 	"testing"
 	"time"
@@ -191,6 +193,10 @@ type vfWireScen struct {
 	Listen      []int          `json:"listen"` // loopback ports with an accepting TCP server (application scans)
 	Flood       []int          `json:"flood"`  // a frame injected continuously from before the start of sx until its first probe is seen
 	Dev         string         `json:"dev"`    // "tun": the wire is the tun device vft0 (raw-IP mode) instead of the veth
+	Servers     map[string]string `json:"servers"` // port -> behaviour of an accepting loopback server: socks | json | stall | redirect:<url>
+	Env         []string       `json:"env"`     // extra environment of the sx process
+	Routes      [][]string     `json:"routes"`  // `ip route add ...` before the run, deleted afterwards
+	SigintConnMS int           `json:"sigintConnMs"` // send SIGINT this long after the first connection reached a server (0: never)
 }
 
 func vfIsProbe(b []byte, myMAC net.HardwareAddr) bool {
@@ -245,11 +251,19 @@ func TestVfWire(t *testing.T) {
 		var lmu sync.Mutex
 		conns := map[string]int{}
 		var listeners []net.Listener
+		servers := map[string]string{}
 		for _, p := range sc.Listen {
-			ln, err := net.Listen("tcp4", fmt.Sprintf("0.0.0.0:%d", p))
+			servers[strconv.Itoa(p)] = "socks"
+		}
+		for p, mode := range sc.Servers {
+			servers[p] = mode
+		}
+		var firstConn atomic.Int64
+		for p, mode := range servers {
+			ln, err := net.Listen("tcp4", "0.0.0.0:"+p)
 			must(err)
 			listeners = append(listeners, ln)
-			go func(ln net.Listener) {
+			go func(ln net.Listener, mode string) {
 				for {
 					c, err := ln.Accept()
 					if err != nil {
@@ -258,17 +272,13 @@ func TestVfWire(t *testing.T) {
 					lmu.Lock()
 					conns[c.LocalAddr().String()]++
 					lmu.Unlock()
-					go func() { // a SOCKS5 proxy without authentication
-						buf := make([]byte, 3)
-						c.SetDeadline(time.Now().Add(2 * time.Second))
-						if _, err := io.ReadFull(c, buf); err == nil {
-							c.Write([]byte{5, 0})
-						}
-						time.Sleep(50 * time.Millisecond)
-						c.Close()
-					}()
+					firstConn.CompareAndSwap(0, time.Now().UnixNano())
+					go vfWireServe(c, mode)
 				}
-			}(ln)
+			}(ln, mode)
+		}
+		for _, r := range sc.Routes {
+			must(vfIP(append([]string{"route", "add"}, r...)...))
 		}
 		capt, err := vfOpenCap("vfw1")
 		must(err)
@@ -286,6 +296,9 @@ func TestVfWire(t *testing.T) {
 		cmd.Stdout, cmd.Stderr = &stdout, &stderr
 		if sc.Stdin != "" {
 			cmd.Stdin = strings.NewReader(sc.Stdin)
+		}
+		if len(sc.Env) > 0 {
+			cmd.Env = append(os.Environ(), sc.Env...)
 		}
 		t0 := time.Now()
 		capt.t0 = t0
@@ -370,6 +383,11 @@ func TestVfWire(t *testing.T) {
 				sigintAt = int(time.Since(t0) / time.Microsecond)
 				_ = cmd.Process.Signal(syscall.SIGINT)
 			}
+			if fc := firstConn.Load(); sc.SigintConnMS > 0 && !sigint && fc != 0 && time.Now().UnixNano() >= fc+int64(sc.SigintConnMS)*1e6 {
+				sigint = true
+				sigintAt = int(time.Since(t0) / time.Microsecond)
+				_ = cmd.Process.Signal(syscall.SIGINT)
+			}
 			if now > maxMS*1000 && !killed {
 				killed = true
 				_ = cmd.Process.Kill()
@@ -390,6 +408,9 @@ func TestVfWire(t *testing.T) {
 		capt.close()
 		for _, ln := range listeners {
 			ln.Close()
+		}
+		for _, r := range sc.Routes {
+			_ = vfIP(append([]string{"route", "del"}, r...)...)
 		}
 		code := 0
 		if exitErr != nil {
@@ -448,6 +469,40 @@ func TestVfWire(t *testing.T) {
 			"injected": inj, "stdout": lines, "stdoutComplete": complete, "stderr": errLines, "exit": code, "exitT": int(exitAt.Sub(t0) / time.Microsecond),
 			"killed": killed, "sigintT": sigintAt, "floodN": floodN, "conns": cs, "panic": strings.Contains(stderr.String(), "panic:") || strings.Contains(stderr.String(), "SIGSEGV") || strings.Contains(stderr.String(), "fatal error")}})
 	})
+}
+
+// vfWireServe: one accepted loopback connection
+func vfWireServe(c net.Conn, mode string) {
+	defer c.Close()
+	c.SetDeadline(time.Now().Add(20 * time.Second))
+	switch {
+	case mode == "socks": // a SOCKS5 proxy without authentication
+		buf := make([]byte, 3)
+		c.SetDeadline(time.Now().Add(2 * time.Second))
+		if _, err := io.ReadFull(c, buf); err == nil {
+			c.Write([]byte{5, 0})
+		}
+		time.Sleep(50 * time.Millisecond)
+	case mode == "stall": // accepts, reads, never answers
+		io.Copy(io.Discard, c)
+	default:
+		br := bufio.NewReader(c)
+		for {
+			l, err := br.ReadString('\n')
+			if err != nil {
+				return
+			}
+			if strings.TrimSpace(l) == "" {
+				break
+			}
+		}
+		if strings.HasPrefix(mode, "redirect:") {
+			fmt.Fprintf(c, "HTTP/1.1 302 Found\r\nLocation: %s\r\nContent-Length: 0\r\nConnection: close\r\n\r\n", strings.TrimPrefix(mode, "redirect:"))
+			return
+		}
+		body := `{"name":"vf","cluster_name":"vf","ID":"vf","Version":"1","ApiVersion":"1.41","version":{"number":"7.0.0"}}`
+		fmt.Fprintf(c, "HTTP/1.1 200 OK\r\nContent-Type: application/json\r\nContent-Length: %d\r\nConnection: close\r\n\r\n%s", len(body), body)
+	}
 }
 
 // lastTOf: time of the n-th probe (1-based); of the last one if fewer were seen
